@@ -43,7 +43,7 @@ func init() { Register("pubsub", pubsubHarness) }
 
 func pubsubHarness(rc *RunCtx) {
 	tp := rc.Tape
-	s := rc.NewSim(60000, 10*time.Minute)
+	s := rc.NewSim(rc.Scale(60000, 200000), 10*time.Minute)
 	kind := []string{"nats", "stomp"}[tp.Intn("cfg", 2)]
 	if v := rc.Params["broker"]; v != "" {
 		kind = v
@@ -213,8 +213,8 @@ func pubsubHarness(rc *RunCtx) {
 		}
 		settle(10 * time.Millisecond)
 
-		nPre := 1 + tp.Intn("ops", 10)
-		nInflight := tp.Intn("ops", 3)
+		nPre := 1 + tp.Intn("ops", rc.Scale(10, 30))
+		nInflight := tp.Intn("ops", rc.Scale(3, 8))
 		nPost := 1 + tp.Intn("ops", 3)
 		seq := int64(0)
 		publish := func(phase string) {
